@@ -64,3 +64,45 @@ package vm
 //@     && result1 == (int(b[afterInt(b, 0)]) > 0)
 //@     && result2 == b[afterInt(b, 0) + 1:]
 //@   ensures[C14] @accepts okInt(b, 0) && afterInt(b, 0) < len(b) ==> result3 == nil
+
+// Encoder. The statement of C14 covers symbols of 1..255 bytes; the callers in
+// this module pass at most two string arguments.
+//@ ghost strSpan(s) = 1 + len(s)
+//@ ghost nlStrLen(strargs) = ite(len(strargs) >= 1, strSpan(strargs[0]), 0) + ite(len(strargs) >= 2, strSpan(strargs[1]), 0)
+//@ ghost nlBytesAt(instructionList, strargs) = len(instructionList) + 2 + nlStrLen(strargs)
+//@ ghost nlNumAt(instructionList, strargs, byteargs) = nlBytesAt(instructionList, strargs) + ite(byteargs != nil, 1 + len(byteargs), 0)
+//@ func NewLine
+//@   requires len(strargs) <= 2 && forall(i, 0, len(strargs), len(strargs[i]) >= 1 && len(strargs[i]) <= 255)
+//@   requires len(byteargs) <= 255
+//@   modifies instructionList[*]
+//@   ensures[C14] @len len(result) == nlNumAt(instructionList, strargs, byteargs) + len(numargs)
+//@   ensures[C14] @prefix forall(i, 0, len(instructionList), result[i] == old(instructionList[i]))
+//@   ensures[C14] @op opAt(result, len(instructionList)) == int(instruction)
+//@   ensures[C14] @str0 len(strargs) >= 1 ==> okStr(result, len(instructionList) + 2) && strAt(result, len(instructionList) + 2) == strargs[0]
+//@   ensures[C14] @str1 len(strargs) >= 2 ==> okStr(result, len(instructionList) + 2 + strSpan(strargs[0]))
+//@       && strAt(result, len(instructionList) + 2 + strSpan(strargs[0])) == strargs[1]
+//@   loop 1 modifies b[*]
+//@   loop 1 invariant @own fresh(b) && (sameBacking(b, loopold(b)) || loopfresh(b))
+//@   loop 1 invariant @idx 0 <= _i && _i <= len(strargs)
+//@   loop 1 invariant @len len(b) == 2 + ite(_i >= 1, strSpan(strargs[0]), 0) + ite(_i >= 2, strSpan(strargs[1]), 0)
+//@   loop 1 invariant @op opAt(b, 0) == int(instruction)
+//@   loop 1 invariant @s0 _i >= 1 ==> okStr(b, 2) && strAt(b, 2) == strargs[0]
+//@   loop 1 invariant @s1 _i >= 2 ==> okStr(b, 2 + strSpan(strargs[0])) && strAt(b, 2 + strSpan(strargs[0])) == strargs[1]
+
+// Round-trip lemmas (C14): real Go, compiled only under the tag; each is
+// verified modularly from the contracts of NewLine and of the decoders, for
+// every symbol of 1..255 bytes, every opcode and every trailing byte string.
+//@ func lemmaRoundTripSym
+//@   requires int(op) <= _MAX && len(a) >= 1 && len(a) <= 255
+//@   modifies prefix[*]
+//@   ensures[C14] @roundtrip err == nil && int(o) == int(op) && x == a && len(r) == 0
+
+//@ func lemmaRoundTripTwoSym
+//@   requires int(op) <= _MAX && len(a) >= 1 && len(a) <= 255 && len(b) >= 1 && len(b) <= 255
+//@   modifies prefix[*]
+//@   ensures[C14] @roundtrip err == nil && int(o) == int(op) && x == a && y == b && len(r) == 0
+
+//@ func lemmaRoundTripNoArg
+//@   requires int(op) <= _MAX
+//@   modifies prefix[*]
+//@   ensures[C14] @roundtrip err == nil && int(o) == int(op) && len(r) == 0
